@@ -137,6 +137,13 @@ FOCUS_TEMPLATES = [
      lambda q: ['error', 'XPTY0004'], 'partial-arity-checked'),
     ("let $f := function($a, $b) { $a * 10 + $b } return for $k in %s return $f($k, ?)(1, 2)",
      lambda q: ['error', 'XPTY0004'], 'partial-arity-checked'),
+    # the fixed arguments of a partial application of a typed inline function are converted and checked as in a call
+    ("let $f := function($a as xs:double, $b) { ($a instance of xs:double, $a + $b) } return for $k in %s return ($f($k, 1), $f($k, ?)(1))",
+     lambda q: [y for x in q for y in ([['bool', True], ['float', repr(float(x + 1))]] * 2)], 'partial-fixed-argument-conversion'),
+    ("let $f := function($a as xs:integer, $b) { $a + $b } return for $k in %s return $f(string($k), ?)(1)",
+     lambda q: ['error', 'XPTY0004'], 'partial-fixed-argument-conversion'),
+    ("let $f := function($a, $b as xs:integer) { $b instance of xs:integer } return for $k in %s return $f(?, xs:untypedAtomic(string($k)))(0)",
+     lambda q: [['bool', True] for _ in q], 'partial-fixed-argument-conversion'),
     # for-each-pair with two lazy operands that depend on the focus (predicates with position()/last(), paths)
     ("for-each-pair(%s[position() ge 1][. ge last() - last()], %s[. ge 0][position() le last()], function($a, $b) { $a * 10 + $b })",
      lambda q: _ints([x * 11 for x in q]), 'for-each-pair-lazy-operands'),
